@@ -68,10 +68,19 @@ def random_exec(rng, nops, maxlen, alphabet):
             if p not in cur: L.append("copy %d %d" % (p, o)); cur[p] = s
             elif p != o: L.append("cmp %d %d" % (o, p))
         elif r < 0.93:
-            p = rng.choice(sorted(cur))
-            if p != o and len(s) + len(cur[p]) < maxlen:
-                if rng.random() < 0.5: L.append("concato %d %d" % (o, p)); cur[o] = s + cur[p]
-                else: L.append("assigno %d %d" % (o, p)); cur[o] = cur[p]
+            p = rng.choice(sorted(cur))             # another String object as argument - or the target itself
+            if len(s) + len(cur[p]) < maxlen:
+                q = rng.random()
+                if q < 0.3: L.append("%s %d %d" % (rng.choice(["concato", "appendo"]), o, p)); cur[o] = s + cur[p]
+                elif q < 0.5: L.append("assigno %d %d" % (o, p)); cur[o] = cur[p]
+                elif q < 0.6: L.append("memo %d %d" % (o, p))
+                elif q < 0.7:
+                    L.append("remo %d %d" % (o, p)); t = cur[p]; i = s.find(t)
+                    if i >= 0: cur[o] = s[:i] + s[i + len(t):]
+                elif q < 0.85:                      # the argument points into the target's own characters
+                    n = rng.choice([0, 0, 1, len(s) // 2, max(len(s) - 1, 0), len(s)]); L.append("concatin %d %d" % (o, n)); cur[o] = s + s[n:]
+                else:
+                    n = rng.choice([0, 1, len(s) // 2, max(len(s) - 1, 0), len(s)]); L.append("assignin %d %d" % (o, n)); cur[o] = s[n:]
         elif len(cur) > 1:
             L.append("del %d" % o); del cur[o]
     return L
